@@ -1,5 +1,6 @@
 import JunoModel.C06.ProofsConv
 import JunoModel.C06.ProofsFeed
+import JunoModel.C06.ProofsLive
 /-!
 C06 — property theorems (statements only; lemmas are in `Proofs*.lean`).
 
@@ -78,6 +79,58 @@ theorem stored_verified_and_extends (cfg : Cfg) (s : Impl) (e : Ev) (n h : Nat)
         cases hit : revertIter cfg lpv H ans with
         | brk => simp [Impl.step, ht, hch, hit] at hs
         | revert cont => cases revOk <;> simp [Impl.step, ht, hch, hit, revertHead] at hs
+  | restart => cases ht : s.task <;> simp [Impl.step, ht] at hs
+
+/-- WHERE the number is checked. `fetcherTask` hands on whatever block the source returned for a
+height — it never compares `block.Number` with the height it asked for (in the model: the `req`
+of `deliver` influences nothing but the ghost evidence). -/
+theorem request_height_is_irrelevant (cfg : Cfg) (s : Impl) (r r' : Nat) (b : Blk) (c : Bool) :
+    (s.step cfg (.deliver r b c)).1.node = (s.step cfg (.deliver r' b c)).1.node ∧
+    (s.step cfg (.deliver r b c)).1.task = (s.step cfg (.deliver r' b c)).1.task ∧
+    (s.step cfg (.deliver r b c)).2 = (s.step cfg (.deliver r' b c)).2 := by
+  cases ht : s.task with
+  | some _ => simp [Impl.step, ht]
+  | none =>
+    by_cases hok : b.ok = true
+    case neg => simp [Impl.step, ht, hok]
+    case pos =>
+    cases c with
+    | true => simp [Impl.step, ht, hok]
+    | false =>
+      cases hsucc : succession s.node.chain b <;> simp [Impl.step, ht, hok, hsucc, onStored]
+
+/-- … it is `Store` (`verifyBlockSuccession`) that enforces "number = head + 1" (0 on an empty
+chain): a block with any other number changes nothing, whatever height it was fetched for and
+however valid it is. -/
+theorem wrong_number_never_stored (cfg : Cfg) (s : Impl) (r : Nat) (b : Blk) (c : Bool)
+    (hn : b.num ≠ nextHeight s.node.chain) :
+    (s.step cfg (.deliver r b c)).1.node = s.node ∧ (s.step cfg (.deliver r b c)).2 = [] ∧
+    (s.step cfg (.deliver r b c)).1.task = s.task := by
+  have hbad : ∀ (x : StoreRes), succession s.node.chain b = x → x = .badNumber := by
+    intro x hx
+    rw [succession_def] at hx
+    have : (nextHeight s.node.chain != b.num) = true := by simpa using fun e => hn e.symm
+    simp [this] at hx; exact hx.symm
+  cases ht : s.task with
+  | some _ => simp [Impl.step, ht]
+  | none =>
+    by_cases hok : b.ok = true
+    case neg => simp [Impl.step, ht, hok]
+    case pos =>
+    cases c with
+    | true => simp [Impl.step, ht, hok]
+    | false =>
+      have := hbad _ rfl
+      simp [Impl.step, ht, hok, this]
+
+/-- On an empty chain only a block numbered 0 whose parent hash is `felt.Zero` can be stored (no
+"genesis shortcut" for other blocks). -/
+theorem genesis_must_be_block_zero (cfg : Cfg) (s : Impl) (e : Ev) (n h : Nat)
+    (hempty : s.node.chain = []) (hs : Obs.stored n h ∈ (s.step cfg e).2) :
+    n = 0 ∧ ∃ req b, e = .deliver req b false ∧ b.num = 0 ∧ b.parent = 0 ∧ b.ok = true := by
+  obtain ⟨req, b, he, hok, hnum, _, hnext, hpar, _⟩ := stored_verified_and_extends cfg s e n h hs
+  rw [hempty] at hnext hpar
+  exact ⟨by rw [← hnum]; exact hnext, req, b, he, hnext, hpar, hok⟩
 
 /-! ## the head only moves backwards by explicit reverts -/
 
@@ -133,6 +186,7 @@ theorem head_moves_back_only_by_revert (cfg : Cfg) (s : Impl) (e : Ev) :
               · cases ans <;> simp [Impl.step, ht, hch, hit, hle, revertHead]
               · simp [Impl.step, ht, hch, hit, hle, revertHead]
             · simp [Impl.step, ht, hch, hit, revertHead]
+  | restart => left; cases ht : s.task <;> simp [Impl.step, ht]
 
 /-- Conditions on the environment of a run that do not depend on the state: block numbers are
 uint64 values and `RevertHead` succeeds. -/
@@ -149,6 +203,7 @@ theorem EnvOK.runOK {cfg : Cfg} (hn : cfg.numCheck = true) :
   | .reorgDetected _ _ :: es, s, h => ⟨trivial, EnvOK.runOK hn es _ h⟩
   | .iter _ _ :: es, s, h =>
     ⟨⟨h.1, fun hf => by rw [hn] at hf; cases hf⟩, EnvOK.runOK hn es _ h.2⟩
+  | .restart :: es, s, h => ⟨trivial, EnvOK.runOK hn es _ h⟩
 
 /-- REFINEMENT. Every run of the machine from a well-formed chain — whatever the source answers, in
 whatever order — is accepted by the evidence-based relation `Spec`: every stored block was served,
@@ -166,6 +221,21 @@ theorem run_accepted (cfg : Cfg) (strict : Bool) (hsc : strict = true → cfg.co
       sp.chain = (Impl.run cfg (Impl.init c) es).1.node.chain ∧ sp.owed = [] := by
   obtain ⟨sp, hr, hs⟩ := Sim.run cfg hsc es (Sim.init hl hb) hok
   exact ⟨sp, hr, hs.chain, hs.owed⟩
+
+/-- REACHABILITY. The well-formedness `run_accepted` asks of the initial chain is an invariant:
+every chain the machine produces (numbers 0,1,2,…, each block naming its predecessor's hash,
+genesis parent `felt.Zero`, numbers uint64) is well-formed again — in particular every chain
+reachable from the EMPTY database, for which the hypotheses hold trivially. -/
+theorem chain_stays_linked (cfg : Cfg) (c : Chain) (es : List Ev) (hl : Linked c)
+    (hb : ∀ x ∈ c, x.num < U64) (hok : (Impl.init c).runOK cfg es) :
+    Linked (Impl.run cfg (Impl.init c) es).1.node.chain ∧
+      ∀ x ∈ (Impl.run cfg (Impl.init c) es).1.node.chain, x.num < U64 := by
+  obtain ⟨sp, _, hs⟩ := Sim.run cfg (strict := false) (fun h => by cases h) es (Sim.init hl hb) hok
+  exact ⟨hs.linked, hs.bound⟩
+
+theorem reachable_from_empty_linked (cfg : Cfg) (es : List Ev) (hok : (Impl.init []).runOK cfg es) :
+    Linked (Impl.run cfg (Impl.init []) es).1.node.chain :=
+  (chain_stays_linked cfg [] es trivial (by intro x hx; cases hx) hok).1
 
 /-- With the number check in `revertTask` and the head confirmation in `storeTask` (proposed
 fixes) the refinement needs no assumption about the source at all, and holds for the strict
@@ -305,8 +375,8 @@ well-formed node chain such that (i) the source's chain is not a proper prefix o
 (`Good.notTrunc`) and (ii) `Good.noUnderflow`: the code has the `remoteHeight = 0` guard, or the
 source holds more than one block, or the node holds at most one. Terminating measure: `measure`.
 PARTIAL because of (ii): the full-strength statement (without it) is false for the original code,
-see `no_convergence_remote_height_zero`; and because liveness is only shown for this schedule, not
-for arbitrary fair goroutine schedules. -/
+see `no_convergence_remote_height_zero`. For schedules other than this one see
+`liveness_fair_partial`. -/
 theorem convergence_sequential_partial (cfg : Cfg) (u : List Blk) (src : Chain) (n : Node)
     (S : Setting u src) (G : Good cfg u src n.chain) (k : Nat)
     (hk : src.length + n.chain.length + 1 ≤ k) :
@@ -352,6 +422,51 @@ theorem no_convergence_remote_height_zero :
         (runRounds Cfg.original [⟨0, 50, 0, true⟩] k
           (round Cfg.original [⟨0, 50, 0, true⟩] ⟨[⟨1, 2, 1, true⟩, ⟨0, 1, 0, true⟩], none⟩).1).1 := rfl
     rw [hstep, hr]; exact ih
+
+/-! ## liveness beyond the sequential schedule -/
+
+/-- SAFETY OF PROGRESS. With a stable honest source, NO event of the serial machine — a block of
+the source delivered late, twice, out of order, for another height, cancelled; a failed fetch with a
+stale latest header; a revert-task iteration whose request failed; a restart — ever moves the node
+away from the source's chain: the invariant is kept and the terminating measure does not increase.
+(`HonestEv`: the answers are truthful about `src`; nothing is assumed about their order.) -/
+theorem honest_event_never_moves_away (cfg : Cfg) (u : List Blk) (src : Chain) (S : Setting u src)
+    (s : Impl) (I : LInv cfg u src s) (e : Ev) (he : HonestEv src s e) :
+    LInv cfg u src (s.step cfg e).1 ∧
+      measure src (s.step cfg e).1.node.chain ≤ measure src s.node.chain :=
+  honest_step S I e he
+
+/-- LIVENESS UNDER FAIR INTERLEAVINGS. Take ANY event sequence in which every event is honest
+(`FairRun.other`: arbitrary interleaving of late/duplicate/out-of-order/cancelled deliveries, failing
+requests, stale heads, restarts) and which contains `k` undisturbed cycles for the then-next height
+(`FairRun.round`: the fetched block or the failed fetch + latest header, followed by the iterations
+of the revert task it starts — contiguous in the serial callback chain — with the requests
+succeeding). If `k ≥ measure` (at most `|source| + |node| + 1`) the run ends with
+`node.chain = source.chain`. I.e. convergence needs only that the pipeline gets, `measure` times,
+an answered request for its next height; everything else that happens in between is harmless.
+Same assumptions on the chains as `convergence_sequential_partial` (`Good`). -/
+theorem liveness_fair_partial (cfg : Cfg) (u : List Blk) (src c : Chain) (S : Setting u src)
+    (G : Good cfg u src c) (k : Nat) (es : List Ev)
+    (h : FairRun cfg src (Impl.init c) k es) (hk : src.length + c.length + 1 ≤ k) :
+    (Impl.run cfg (Impl.init c) es).1.node.chain = src :=
+  fair_run_converges S h ⟨G, by intro l hl; cases hl⟩ (Nat.le_trans (measure_le _ _) hk)
+
+/-- THE CODE AS IT IS NOW: the same without the underflow hypothesis. -/
+theorem liveness_fair_asFound (u : List Blk) (src c : Chain) (S : Setting u src)
+    (hl : Linked c) (hu : ∀ b ∈ c, b ∈ u) (hb : c.length < U64) (ht : src <:+ c → src = c)
+    (k : Nat) (es : List Ev) (h : FairRun Cfg.asFound src (Impl.init c) k es)
+    (hk : src.length + c.length + 1 ≤ k) :
+    (Impl.run Cfg.asFound (Impl.init c) es).1.node.chain = src :=
+  liveness_fair_partial Cfg.asFound u src c S ⟨hl, hu, hb, ht, Or.inl rfl⟩ k es h hk
+
+/-- An undisturbed cycle, run on the event machine, does to the chain exactly what `round` (the
+function the harness compares with the real synchroniser) does; all its events are honest and it
+ends with no revert task running. -/
+theorem round_events_refine_round (cfg : Cfg) (src : Chain) (s : Impl) (ht : s.task = none) :
+    HonestRun cfg src s (roundEvents cfg src s.node.chain) ∧
+    (Impl.run cfg s (roundEvents cfg src s.node.chain)).1.node.chain = (round cfg src s.node).1.chain ∧
+    (Impl.run cfg s (roundEvents cfg src s.node.chain)).1.task = none :=
+  roundEvents_spec cfg src s ht
 
 /-! ## the uint64 subtractions -/
 
@@ -439,6 +554,16 @@ example :
     (Impl.run Cfg.original (Impl.init []) es).2 = (Impl.run Cfg.fixed (Impl.init []) es).2 := by
   refine ⟨trivial, ?_, by decide, by decide⟩
   exact ⟨by decide, by decide, by decide, rfl, rfl, by decide, by decide, trivial⟩
+
+-- a fair run with junk between the cycles (hypotheses of `liveness_fair_partial` are satisfiable)
+example :
+    let g : Blk := ⟨0, 1, 0, true⟩
+    let x1 : Blk := ⟨1, 2, 1, true⟩
+    let y1 : Blk := ⟨1, 12, 1, true⟩
+    FairRun Cfg.asFound [y1, g] (Impl.init [x1, g]) 1
+      (Ev.deliver 7 g true :: Ev.restart :: (roundEvents Cfg.asFound [y1, g] [x1, g] ++ [])) :=
+  FairRun.other _ _ _ _ (by show (_ : Blk) ∈ _; decide) (FairRun.other _ _ _ _ trivial
+    (FairRun.round _ [] 0 rfl (FairRun.done _)))
 
 -- a setting and a node chain that satisfy the hypotheses of `convergence_sequential_partial`
 example :
